@@ -114,6 +114,7 @@ typedef struct { xrl_error *e; int code; char *msg; char *msgptr; } pm_kept;
 
 static const int pm_errnos[8] = { ENOMEM, 0, ERANGE, EDOM, EINVAL, ENOENT, EINTR, EAGAIN };
 
+static int fpflags;
 int main(int argc, char **argv) {
   int poison = 0, nfd0, nfd1, tok_ok = 1, rnd_ok = 1, rnd_expect = 0; uint64_t ps0, ps1; char *tok_expect = NULL; FILE *f; long n, k; char *sbuf = NULL; long slen = 0; xv_req *rq; xv_resp *rs; pm_kept *kept; int nkept = 0, changed = 0;
   uint64_t h0, h1; char loc0[512], loc1[512], cwd0[1024], cwd1[1024], p1[600], p2[600]; int fd1, fd2; struct stat st1, st2; long added = 0;
@@ -134,6 +135,8 @@ int main(int argc, char **argv) {
   fd1 = open(p1, O_RDWR | O_CREAT | O_TRUNC, 0644); fd2 = open(p2, O_RDWR | O_CREAT | O_TRUNC, 0644);
   fflush(stdout); fflush(stderr); dup2(fd1, 1); dup2(fd2, 2);
   snprintf(loc0, sizeof loc0, "%s", setlocale(LC_ALL, NULL)); if (!getcwd(cwd0, sizeof cwd0)) cwd0[0] = 0;
+  xv_fptrap_from_env();      /* host floating-point set-up (XV_ROUND, XV_X87PC, XV_FPTRAP) BEFORE the state is recorded: the calls may not change it */
+  fpflags = getenv("XV_FPFLAGS") != NULL;
   h0 = pm_hash(); nfd0 = pm_nfd(); ps0 = pm_procstate();
   { static char tokbuf[] = "a;b;c"; strtok(tokbuf, ";"); tok_expect = tokbuf + 2; }       /* the host is in the middle of a strtok() walk ... */
   srand(12345); rnd_expect = rand(); srand(12345);                                            /* ... and of a rand() sequence */
@@ -143,6 +146,7 @@ int main(int argc, char **argv) {
     xrl_error *e = NULL; const xv_req *r = &rq[k]; xv_resp *o = &rs[k];
     o->msg = -1;
     if (poison) errno = pm_errnos[(k * 7 + 3) % 8];      /* what an arbitrary earlier call of the process may have left behind */
+    if (fpflags && k % 2) feraiseexcept(FE_DIVBYZERO | FE_INVALID | FE_OVERFLOW | FE_UNDERFLOW | FE_INEXACT);   /* sticky status flags the host's own arithmetic left raised */
     if (r->fn >= 0 && r->fn < XV_NFN) o->v[0] = xv_call(r->fn, r->i, r->d, xe_s(r->s), &e);
     else if (r->fn >= 1000 && r->fn < XS_END) xe_special(r, o, &e);
     else if (r->fn == 2001) pm_user_array(r, o, &e, argv[6]);
